@@ -131,7 +131,14 @@ def units(tier, seed):
 
     warnings.filterwarnings("ignore")
     names = list(components(tier))  # imports kaira in the parent as well (names only)
-    return [{"unit": nm, "name": nm, "cost": 3 if nm.startswith(("decoder:bm", "decoder:polar_bp", "constraint:papr")) else 1} for nm in names]
+    def grp(nm):
+        # variants of one component kind (same decoder kind / same modulation scheme and order) share a process
+        parts = nm.split(":")
+        if parts[0] == "modem":
+            return "modem:" + ",".join(parts[1].split(",")[:2])
+        return ":".join(parts[:2]).split("(")[0]
+
+    return [{"unit": nm, "name": nm, "cost": 3 if nm.startswith(("decoder:bm", "decoder:polar_bp", "constraint:papr")) else 1, "group": grp(nm)} for nm in names]
 
 
 def close(a, b, exact):
